@@ -126,6 +126,54 @@ def add_name_subsections(ch, m, nfuncs):
     m.name_subsections = subs or None
 
 
+def sweep_module(ch):
+    """count sweeps: one function (or name) per value of a count over a window of consecutive values - br_table label counts (with
+    a non-zero default label), numbers of locals, of parameters, nesting depths, name lengths.  Fixed-size internal buffers, inline
+    arrays and growth steps of the translator sit at particular counts; a random count practically never equals them."""
+    m = Module()
+    T = m.type_index
+    t0 = T((I32,), (I32,))
+    kind = ch.below(5)
+    lo = ch.pick((0, 0, 0, 64, 128, 192, 224, 480, 992, 1000, 2016, 4064, 8160))
+    n = 130 if lo == 0 else 72
+    if kind == 0:
+        for c in range(lo, lo + n):
+            labels = [(i + c) % 3 for i in range(c)]
+            body = [('block', None, [('block', None, [('block', None, [('local.get', 0), ('br_table', labels, 1 + (c % 2))])])])]
+            m.funcs.append(Func(t0, [], body + [('local.get', 0)]))
+    elif kind == 1:
+        for c in range(lo, lo + n):
+            locs = [(I32, I64, F32, F64)[(i + c) % 4] for i in range(c)]
+            m.funcs.append(Func(t0, locs, [('local.get', 0)] + ([('local.get', c), ('i32.add',)] if c and locs[c - 1] == I32 else [])))
+    elif kind == 2:
+        lo = min(lo, 480)
+        for c in range(lo, lo + n):
+            ps = tuple((I32, I64, F32, F64)[(i * 7 + c) % 4] for i in range(c))
+            m.funcs.append(Func(T(ps, (I32,)), [], [('i32.const', c)]))
+    elif kind == 3:
+        lo = min(lo, 2016)
+        for c in range(lo, lo + n, 1 if lo < 300 else 3):
+            body = [('local.get', 0)]
+            for d in range(c):
+                body = [('block', I32, body)] if d % 2 else [('loop', I32, body)]
+            m.funcs.append(Func(t0, [], body))
+    else:
+        imp = []
+        for c in range(lo, lo + n):
+            nm = bytes((0x61 + (i + c) % 26) if (i + c) % 11 else 0x2d for i in range(c))
+            m.imports.append((b'env', nm + b'i', 'func', t0))
+            imp.append(c)
+        for j, c in enumerate(range(lo, lo + n)):
+            nm = bytes((0x41 + (i + c) % 26) if (i + c) % 7 else 0xc3 for i in range(c))
+            m.funcs.append(Func(t0, [], [('local.get', 0), ('call', j)]))
+            m.exports.append((nm + b'e', 'func', len(imp) + j))
+        m.func_names = {len(imp) + j: bytes(0x61 + (i % 26) for i in range(c)) for j, c in enumerate(range(lo, lo + n))}
+        return m
+    m.exports.append((b'first', 'func', 0))
+    m.exports.append((b'last', 'func', len(m.funcs) - 1))
+    return m
+
+
 def stress_module(ch):
     m = Module()
     T = m.type_index
@@ -201,7 +249,13 @@ def stress_module(ch):
 
 def any_module(ch, allow_stress=True):
     """(module or None, bytes, tag)"""
-    k = ch.below(10)
+    k = ch.below(12)
+    if k >= 10:
+        if not allow_stress:
+            k = 7
+        else:
+            m = sweep_module(ch)
+            return m, wasm.encode(m), 'stress'
     if k < 5:
         mk = ch.pick(GENERAL_MAKERS)
         m, script, meta = f1.MAKERS[mk](ch, {'nfuncs': 10, 'nargs': 2, 'nsteps': 20, 'nconst': 60})
